@@ -40,7 +40,13 @@ def main(names, tier="quick", props=None):
     shutil.rmtree(wt)
     shutil.rmtree(vcopy)
     shutil.copytree(VERIF, vcopy, symlinks=True, ignore=shutil.ignore_patterns(".git", "replays", "__pycache__", "seeded"))
-    r = sh(f"git -C /repo worktree add --detach {wt} HEAD")
+    import time
+    for attempt in range(5):          # (several workers may add worktrees at the same moment)
+        r = sh(f"git -C /repo worktree add --detach {wt} HEAD")
+        if r.returncode == 0:
+            break
+        time.sleep(2 + attempt)
+        sh(f"git -C /repo worktree prune")
     assert r.returncode == 0, r.stderr
     env = dict(os.environ, BOARIO_REPO=str(wt), VERIF_OUT=str(out))
     try:
